@@ -1027,6 +1027,75 @@ def nontrivial_hist(t):
 
 
 # ---------------------------------------------------------------------------
+# C16 — well-scaled floating-point inputs (exactly representable in float)
+# ---------------------------------------------------------------------------
+def dyadic_grid(rng, n, lo=-8, hi=8):
+    """n strictly increasing multiples of 1/8 in [lo, hi], spacing >= 1/8"""
+    ks = sorted(rng.sample(range(lo * 8, hi * 8 + 1), n))
+    return [Fr(k, 8) for k in ks]
+
+
+def dyadic_coef(rng):
+    return Fr(rng.randint(-24, 24), rng.choice([1, 2, 4, 8]))
+
+
+def gen_C16(seed, tier):
+    rng = random.Random(seed + 16)
+    cases = []
+    reps = 6 if tier == 'quick' else 30
+    for r in range(reps):
+        c = Case(f"C16g{r}")
+        # basis generation from knots, orders up to 6, with repeated knots
+        nv = rng.randint(3, 7)
+        vals = dyadic_grid(rng, nv) if r % 3 else [Fr(k, 8) for k in range(-4 * 8, -4 * 8 + nv)]  # also spacing exactly 1/8
+        knots = [v for v in vals for _ in range(rng.choice([1, 1, 2, 3]))]
+        p = rng.randint(1, 6)
+        c.grid_new(0, vals)
+        c.gen1(10, p, knots)
+        cnt = max(0, len(knots) - p - 1)
+        for i in range(cnt):
+            c.show(10 + i)
+            for x in (vals[0], vals[len(vals) // 2], (vals[0] + vals[1]) / 2, vals[-1]):
+                c.spl_eval(10 + i, x)
+        if cnt >= 2:
+            c.spl_add(100, 10, 11); c.show(100)
+            if 2 * p <= 12:
+                c.spl_mul(101, 10, 11); c.show(101)
+            c.bilin(E('Id'), E('Id'), 10, 11)
+            c.bilin(E('Der', 1), E('Der', 1), 10, 11)
+            c.bilin(E('Id'), E('Pos', 2), 10, 10)
+            c.lin(E('Id'), 10)
+            c.lin(E('Pos', 1), 11)
+            c.apply(102, E('Add', E('SMulL', Sc('F', Fr(-1, 2)), E('Der', 2)), E('SMulL', Sc('F', Fr(1, 2)), E('Pos', 2))), 10); c.show(102)
+            c.apply(103, E('DivS', E('SubS', E('Pos', 1), Sc('F', Fr(3, 2))), Sc('I', 4)), 11); c.show(103)
+        cases.append(c)
+    for r in range(reps):
+        c = Case(f"C16s{r}")
+        n = rng.randint(3, 8)
+        pts = dyadic_grid(rng, n)
+        c.grid_new(0, pts)
+        oa, ob = rng.randint(0, 6), rng.randint(0, 6)
+        for (d, o) in ((1, oa), (2, ob)):
+            w = rng.choice([w for w in windows(n) if nint(w) >= 1])
+            c.sup_new(1000 + d, 0, w[0], w[1])
+            c.spl_new(d, o, 1000 + d, [[dyadic_coef(rng) for _ in range(o + 1)] for _ in range(nint(w))])
+        for x in pts + [(pts[0] + pts[1]) / 2]:
+            c.spl_eval(1, x)
+        c.spl_add(3, 1, 2); c.show(3)
+        c.spl_sub(4, 1, 2); c.show(4)
+        c.spl_mul(5, 1, 2); c.show(5)
+        c.spl_scale(6, 1, Fr(3, 8)); c.show(6)
+        c.spl_div(7, 1, Fr(4)); c.show(7)
+        c.bilin(E('Id'), E('Id'), 1, 2)
+        c.bilin(E('Der', 1), E('Pos', 1), 1, 2)
+        c.lin(E('Pos', 2), 1)
+        c.apply(8, E('Mul', E('Pos', 1), E('Der', 1)), 1); c.show(8)
+        c.apply(9, E('Pos', 3), 2); c.show(9)
+        cases.append(c)
+    return cases
+
+
+# ---------------------------------------------------------------------------
 # registry
 # ---------------------------------------------------------------------------
 def _p(gen, nontrivial, rule, variants=None, **kw):
@@ -1103,6 +1172,18 @@ PROPS = {
               "all ordered pairs of windows on a 5-point grid (second operand on a distinct-but-equal grid object), coefficient "
               "patterns with zero pieces (probability 0.3-0.4), identical coefficients on identical windows: isZero, checkOverlap both "
               "ways, ==/!= both ways, copy equality, product and its isZero", exhaustive=True),
+    'C16': dict(gen=gen_C16, nontrivial=lambda t: t.split()[0] not in ('GridNew', 'SupNew'), level='other',
+                variants={'quick': ['plain'], 'thorough': ['plain']}, extra_stages=[stages.stage_fp_round],
+                rule="well-scaled exactly representable inputs (grid points multiples of 1/8 in [-8, 8], spacing >= 1/8, orders <= 6, "
+                     "dyadic coefficients): B-spline generation from knots with repeats, evaluation, + - * scalar forms, operator "
+                     "application, linear and bilinear forms; executed with float, double, long double (-O0; thorough also -O2) and "
+                     "compared token by token with the model run over the pair world (exact value, magnitude S): |fl - exact| <= 2^20 "
+                     "eps_T S; double with/without BSPLINE_ADD_TEST_CHECKS compared bit for bit; non-trivial = distinct (type, operation) "
+                     "pairs whose output contains a scalar",
+                explanation="PARTIAL. Proved: the exact reference (C01-C07 theorems, re-checked in Properties_C16.v as instances) and "
+                            "standard-model rounding bounds for the evaluation and integration kernels (Proofs_Rounded.v, over R, "
+                            "depends on the real-number axioms listed under assumptions). Validated, not proved: the 2^20 eps bound for "
+                            "composite computations in the three hardware formats, on generated well-scaled inputs."),
     'C13': dict(
         gen=gen_C13, nontrivial=nontrivial_C13, level='proof', exhaustive=True,
         rule="exhaustive: every window of grids with 2..5 (quick) / 2..6 (thorough) points; every ordered pair (union, "
